@@ -29,7 +29,7 @@ def cxx_double(s):
     if s in ("-inf", "-Infinity", "-INFINITY"): return "(-INFINITY)"
     return s
 
-def write_and_run(prop, name, header_comment, includes, body, main_body, sources=(), flags=(), timeout=120, libs=()):
+def write_and_run(prop, name, header_comment, includes, body, main_body, sources=(), flags=(), timeout=120, libs=(), lib=None):
     d = os.path.join(REPLAY_DIR, prop)
     os.makedirs(d, exist_ok=True)
     path = os.path.join(d, re.sub(r'[^\w.-]', '_', name) + ".cpp")
@@ -44,7 +44,12 @@ def write_and_run(prop, name, header_comment, includes, body, main_body, sources
     srcs = []
     for s in sources:
         srcs += sorted(glob.glob(os.path.join(REPO, s)))
-    cmd = ["g++", "-std=c++14", "-O1", "-g", "-w"] + list(flags) + INC + [path] + srcs + ["-o", exe] + list(libs)
+    if lib:
+        objs = build_lib(lib, flags)
+        if objs is None:
+            return path, None, "replay: the working tree's library sources do not compile"
+        srcs += objs
+    cmd = ["g++", "-std=c++14", "-O1", "-g", "-w", "-pthread"] + list(flags) + INC + [path] + srcs + ["-o", exe] + list(libs)
     try:
         c = subprocess.run(cmd, capture_output=True, text=True, timeout=600)
     except subprocess.TimeoutExpired:
@@ -72,3 +77,44 @@ def no_input_replay(prop, name, text):
     with open(path, "w") as f:
         f.write(text)
     return path
+
+SG_SOURCES = ["SparseGrids/TasmanianSparseGrid.cpp", "SparseGrids/TasmanianSparseGridWrapC.cpp",
+    "SparseGrids/tsgAcceleratedDataStructures.cpp", "SparseGrids/tsgCoreOneDimensional.cpp",
+    "SparseGrids/tsgDConstructGridGlobal.cpp", "SparseGrids/tsgGridGlobal.cpp", "SparseGrids/tsgGridWavelet.cpp",
+    "SparseGrids/tsgHardCodedTabulatedRules.cpp", "SparseGrids/tsgGridLocalPolynomial.cpp", "SparseGrids/tsgGridSequence.cpp",
+    "SparseGrids/tsgGridFourier.cpp", "SparseGrids/tsgIndexManipulator.cpp", "SparseGrids/tsgHierarchyManipulator.cpp",
+    "SparseGrids/tsgIndexSets.cpp", "SparseGrids/tsgLinearSolvers.cpp", "SparseGrids/tsgRuleWavelet.cpp",
+    "SparseGrids/tsgSequenceOptimizer.cpp", "InterfaceTPL/tsgGpuNull.cpp"]
+DREAM_SOURCES = ["DREAM/tsgDreamState.cpp", "DREAM/tsgDreamLikelyGaussian.cpp", "DREAM/tsgDreamSampleWrapC.cpp",
+    "DREAM/Optimization/tsgParticleSwarm.cpp", "DREAM/Optimization/tsgGradientDescent.cpp"]
+
+_lib_cache = {}
+def build_lib(kind="sg", flags=()):
+    """Compile the library sources of the *working tree* into objects (parallel, ~15 s); returns the list of
+    object files.  Used only by replays of API-level obligations."""
+    from concurrent.futures import ThreadPoolExecutor
+    key = (kind, tuple(flags))
+    if key in _lib_cache:
+        return _lib_cache[key]
+    srcs = list(SG_SOURCES) + (DREAM_SOURCES if kind == "dream" else [])
+    d = os.path.join(runner.WORK, "lib_%s_%d" % (kind, os.getpid()))
+    os.makedirs(d, exist_ok=True)
+    objs = []
+    def cc(s):
+        o = os.path.join(d, os.path.basename(s) + ".o")
+        c = subprocess.run(["g++", "-std=c++14", "-O1", "-g", "-w", "-fPIC"] + list(flags) + INC + ["-c", os.path.join(REPO, s), "-o", o],
+                           capture_output=True, text=True)
+        return o if c.returncode == 0 else None
+    with ThreadPoolExecutor(max_workers=16) as ex:
+        objs = list(ex.map(cc, srcs))
+    if any(o is None for o in objs):
+        return None
+    _lib_cache[key] = objs
+    return objs
+
+def cleanup_libs():
+    import shutil
+    for objs in _lib_cache.values():
+        if objs:
+            shutil.rmtree(os.path.dirname(objs[0]), ignore_errors=True)
+    _lib_cache.clear()
